@@ -21,7 +21,6 @@ SPEC = {
     ],
     "assumptions": [
         "the hash function has a fixed output length (premise H_len of the theorems; true of SHA-256); injectivity is never assumed, conclusions are '... or a collision of H is exhibited'",
-        "verify_parameters models responses whose CometBFT parameters carry all four protobuf sub-messages; on a response that omits one the real verifyParameters panics (finding C19:verifyParameters-panics-on-omitted-submessage, reported by the harness, not hidden)",
         "the light block handed to the verify functions is the light-client verified one for the requested height (Core.lightBlock)",
         "fields that the code does not bind are listed by theorems, not hidden: Block.Size, the last commit's own Height/Round/BlockID (Commit.Hash covers signatures only), result Log/Info/Events/Codespace and begin/end-block events, validator ProposerPriority / set Proposer, CometBFT evidence/validator/version parameters (ConsensusParams.Hash covers Block.MaxBytes/MaxGas only), block results at the latest trusted height",
     ],
